@@ -228,7 +228,12 @@ class Spec(unit.UnitSpec):
     theorems = ["Mmtk.Runs.runs_disjoint", "Mmtk.Runs.run_end_unique", "Mmtk.Runs.inv_step", "Mmtk.Runs.wf_reach",
                 "Mmtk.Runs.free_all_coalesces", "Mmtk.Runs.free_all_restores_single_run",
                 "Mmtk.Runs.alloc_fails_only_if_no_run", "Mmtk.Runs.alloc_makes_run",
-                "Mmtk.FreeList.getNext_setNext", "Mmtk.FreeList.cross_head_coalesce_double_allocates"]
+                "Mmtk.FreeList.getNext_setNext", "Mmtk.FreeList.cross_head_coalesce_double_allocates",
+                "Mmtk.FreeList.alloc_refines", "Mmtk.FreeList.allocFromUnit_refines", "Mmtk.FreeList.free_refines",
+                "Mmtk.FreeList.setUnc_refines", "Mmtk.FreeList.clrUnc_refines", "Mmtk.FreeList.abs_reads",
+                "Mmtk.FreeList.step_refines", "Mmtk.FreeList.history_refines",
+                "Mmtk.FreeList.concrete_history_no_overlap", "Mmtk.FreeList.concrete_history_conservation",
+                "Mmtk.FreeList.new_refines_single", "Mmtk.FreeList.exRel", "Mmtk.FreeList.exT0_new"]
     component = "fl"
     relation = ("Mmtk.FreeList.* (table of i32 entries, every method, masks) ≙ util::freelist::FreeList on "
                 "IntArrayFreeList (parent + child lists sharing the table) and RawMemoryFreeList (private mmapped window)")
